@@ -14,6 +14,9 @@
 #include "event.c"
 #include "evbase.h"
 
+#ifndef C01_READD_PERSIST
+#define C01_READD_PERSIST 0
+#endif
 #define SEC_MAX 0x7fffffffULL
 /* reference arithmetic on normalised timevals (add/sub with carry; no 64-bit multiplications:
  * converting to a microsecond count costs the SAT solver minutes) */
@@ -229,4 +232,78 @@ void harness_persist(void)
 #else
 	VP_WITNESS("not a timeout: re-armed relative to now");
 #endif
+}
+
+/* ---------------------------------------------------------------- re-add replaces the firing */
+/* A timer that has already expired and sits on the active queue (EV_TIMEOUT), but whose callback has
+ * not run yet, is re-added: the stale firing must be dropped, the new deadline is now + tv2. */
+void harness_readd_step(void)
+{
+	struct event_base *base = vp_base_new(1, 0);
+	struct event ev;
+	struct timeval d1, tv2, expect;
+	int r;
+
+	r = min_heap_reserve_(&base->timeheap, 4);
+	__CPROVER_assume(r == 0);
+	sym_tv(&vp_now); sym_tv(&tv2);
+	sym_tv(&d1);
+	__CPROVER_assume(tv_le(&d1, &vp_now));            /* the first deadline has passed */
+	event_assign(&ev, base, -1, C01_READD_PERSIST ? EV_PERSIST : 0, user_cb, NULL);
+	EVBASE_ACQUIRE_LOCK(base, th_base_lock);
+	r = event_add_nolock_(&ev, &d1, 1);
+	__CPROVER_assume(r == 0);
+	/* exactly what timeout_process() does for a due, inactive timer (called directly: the "is it
+	 * due?" test on symbolic values would merge a due and a not-due state, and the merged heap size
+	 * sends symex into realloc(symbolic) -- measured OOM; due-ness itself is the expiry step's subject) */
+	event_del_nolock_(&ev, EVENT_DEL_NOBLOCK);
+	event_active_nolock_(&ev, EV_TIMEOUT, 1);
+	EVBASE_RELEASE_LOCK(base, th_base_lock);
+	VP_ASSERT((ev.ev_flags & EVLIST_ACTIVE) && ev.ev_res == EV_TIMEOUT, "C01: harness: expired timer is active");
+	r = event_add(&ev, &tv2);                         /* ... and is re-added before its callback ran */
+	VP_ASSERT(r == 0, "C01: re-add succeeds");
+	expect = r_add(vp_now, tv2);
+	VP_ASSERT(!(ev.ev_flags & (EVLIST_ACTIVE | EVLIST_ACTIVE_LATER)), "C01: re-adding a timer must replace its pending firing (it is still on the active queue)");
+	VP_ASSERT(base->event_count_active == 0 && TAILQ_FIRST(&base->activequeues[0]) == NULL, "C01: re-add must leave no stale activation queued");
+	VP_ASSERT((ev.ev_flags & EVLIST_TIMEOUT) && r_eq(ev.ev_timeout, expect) && min_heap_top_(&base->timeheap) == &ev && min_heap_size_(&base->timeheap) == 1,
+	    "C01: re-added timer must be pending exactly once at now + new timeout");
+	VP_ASSERT(ncb == 0, "C01: no callback ran");
+	VP_WITNESS("re-added while active");
+}
+
+/* The same through the real loop: timers A (priority 0) and B (priority 1) expire in the same iteration,
+ * A's callback re-adds B with 5 s; B must not run in that loop call, and must run exactly once 5 s later. */
+static struct event RA, RB; static int n_a, n_b; static struct timeval b_at;
+static void rb_cb(evutil_socket_t fd, short res, void *arg) { (void)fd; (void)arg; n_b++; b_at = vp_now; VP_ASSERT(res == EV_TIMEOUT, "C01: timer callback result"); }
+static void ra_cb(evutil_socket_t fd, short res, void *arg)
+{
+	static const struct timeval five = { 5, 0 };
+	(void)fd; (void)res; (void)arg;
+	n_a++;
+	VP_ASSERT(event_add(&RB, &five) == 0, "C01: re-add from a callback");
+}
+void harness_readd_loop(void)
+{
+	struct event_base *base = vp_base_new(2, 1);
+	static const struct timeval t20 = { 0, 20000 }, t21 = { 0, 21000 };
+	int r;
+	r = min_heap_reserve_(&base->timeheap, 4);
+	__CPROVER_assume(r == 0);
+	event_assign(&RA, base, -1, 0, ra_cb, NULL); event_priority_set(&RA, 0);
+	event_assign(&RB, base, -1, C01_READD_PERSIST ? EV_PERSIST : 0, rb_cb, NULL); event_priority_set(&RB, 1);
+	VP_ASSERT(event_add(&RA, &t20) == 0 && event_add(&RB, &t21) == 0, "C01: add");
+	vp_now.tv_usec += 60000;                           /* both have expired when the loop runs */
+	r = event_base_loop(base, EVLOOP_NONBLOCK);
+	VP_ASSERT(r == 0, "C01: loop");
+	VP_ASSERT(n_a == 1, "C01: timer A fired once");
+	VP_ASSERT(n_b == 0, "C01: a timer re-added before its callback ran must not fire at the old deadline");
+	VP_ASSERT(event_pending(&RB, EV_TIMEOUT, NULL) == EV_TIMEOUT, "C01: the re-added timer is pending");
+	vp_now.tv_sec += 4;
+	r = event_base_loop(base, EVLOOP_NONBLOCK);
+	VP_ASSERT(n_b == 0, "C01: re-added timer fired before its new deadline");
+	vp_now.tv_sec += 1;
+	r = event_base_loop(base, EVLOOP_NONBLOCK);
+	VP_ASSERT(n_b == 1 && n_a == 1, "C01: re-added timer fires exactly once at its new deadline");
+	VP_ASSERT_NO_LOCKS("event_base_loop");
+	VP_WITNESS("re-added from a callback");
 }
